@@ -582,6 +582,37 @@ pub fn gen_doc(t: &mut Tape, max_statements: u64) -> DocCase {
             },
         }
     }
+    // aggregator-heavy documents often end with an explicit import that sits on the semver
+    // track of an implicit import carried by several instantiations (a conflict with >= 2
+    // candidates for "the previous instantiation")
+    if (family == 3 || family == 1) && g.instances.len() >= 2 && g.t.chance(1, 2) {
+        // versioned import names carried by at least two of the document's instantiations
+        let lib = library();
+        let mut counts: Vec<(String, usize)> = Vec::new();
+        for (_, li) in &g.instances {
+            for imp in lib[*li].imports.iter().filter(|i| i.contains('@')) {
+                match counts.iter_mut().find(|(n, _)| n == imp) {
+                    Some((_, c)) => *c += 1,
+                    None => counts.push((imp.clone(), 1)),
+                }
+            }
+        }
+        let shared: Vec<String> = counts.into_iter().filter(|(_, c)| *c >= 2).map(|(n, _)| n).collect();
+        if !shared.is_empty() {
+            let carried = shared[g.t.index(shared.len())].clone();
+            // same interface, another version of the track
+            let (base, version) = carried.rsplit_once('@').unwrap();
+            let other = match version {
+                "1.0.0" => *g.t.pick(&["1.1.0", "1.2.0"]),
+                "1.1.0" => *g.t.pick(&["1.0.0", "1.2.0"]),
+                _ => *g.t.pick(&["1.0.0", "1.1.0"]),
+            };
+            let ty = *g.t.pick(&["func()", "func(a: u32) -> u32", "foo:shared/log@1.0.0", "bar:util/rand"]);
+            let n = g.fresh("shadow");
+            g.out.push_str(&format!("import {n} as \"{base}@{other}\": {ty};\n"));
+            g.probes.push("explicit_import_on_implicit_track_with_>=2_instantiations");
+        }
+    }
     if g.instances.len() >= 2 {
         g.probes.push(">=2_instantiations");
     }
